@@ -79,7 +79,11 @@ func resolveStruct(rv reflect.Value, fieldName string) (any, bool) {
 
 // resolveMap handles map access by string key.
 func resolveMap(rv reflect.Value, key string) (any, bool) {
-	mapKey := reflect.ValueOf(key)
+	// Only maps keyed by (a kind of) string can hold the name; MapIndex panics otherwise.
+	if rv.Type().Key().Kind() != reflect.String {
+		return nil, false
+	}
+	mapKey := reflect.ValueOf(key).Convert(rv.Type().Key())
 	v := rv.MapIndex(mapKey)
 	if !v.IsValid() {
 		return nil, false
